@@ -72,6 +72,17 @@ theorem written_range_reads_back (d : Bytes) (o : Nat) (w : Bytes) (hw : w ≠ [
 theorem completed_writes_are_covered (d : Bytes) (ws : List (Nat × Bytes)) (x : Nat × Bytes) (hx : x ∈ ws) (hne : x.2 ≠ []) :
     x.1 + x.2.length ≤ (writeAll d ws).length := writeAll_covers_every_write d ws x hx hne
 
+/-- a WRITE racing a SETATTR(size): when the write ends at or below the new size the two commute (one outcome) -/
+theorem write_below_new_size_commutes_with_truncate (d : Bytes) (o : Nat) (w : Bytes) (n : Nat) (hw : w ≠ [])
+    (h : o + w.length ≤ n) : truncBytes (writeBytes d o w) n = writeBytes (truncBytes d n) o w :=
+  truncBytes_writeBytes_comm d o w n hw h
+
+/-- ... and when it reaches beyond the new size they do not: the two serial orders differ already in the length, so
+    for such pairs the oracle accepts either outcome and nothing else -/
+theorem write_beyond_new_size_order_visible (d : Bytes) (o : Nat) (w : Bytes) (n : Nat) (hw : w ≠ [])
+    (h : n < o + w.length) : (truncBytes (writeBytes d o w) n).length ≠ (writeBytes (truncBytes d n) o w).length :=
+  trunc_then_write_differs d o w n hw h
+
 /-- two WRITEs of the same range: the serial order decides, the later payload is what stays -/
 theorem same_range_last_writer_wins (d : Bytes) (o : Nat) (w1 w2 : Bytes) (h1 : w1 ≠ []) (h2 : w2 ≠ [])
     (hl : w1.length = w2.length) : writeBytes (writeBytes d o w1) o w2 = writeBytes d o w2 :=
